@@ -96,8 +96,14 @@ def run_workers(cases: List[dict], seeds: List[int]) -> Dict[int, List[dict]]:
         shutil.rmtree(wd, ignore_errors=True)
 
 
-def check_messages(res: CheckResult, tier: str, rng: random.Random) -> None:
-    cases = gen_cases(tier, rng)
+def check_messages(res: CheckResult, tier: str, rng: random.Random, only_clauses: Any = None, flavours: Any = None) -> None:
+    """only_clauses / flavours: report only these clauses, over the cases of these flavours (C06 runs the quantifier
+    cases for "the configured repr of exactly the value")."""
+    cases = [c for c in gen_cases(tier, rng) if flavours is None or c["flavour"] in flavours]
+
+    def _v(clause: str, what: str, replay: dict) -> None:
+        if only_clauses is None or clause in only_clauses:
+            res.violation(clause, what, replay)
     wd = tlc.scratch_dir("icv-msg-")
     try:
         cfile = os.path.join(wd, "cases.ndjson")
@@ -131,13 +137,13 @@ def check_messages(res: CheckResult, tier: str, rng: random.Random) -> None:
         # identical on repetition and across hash seeds
         variants = {json.dumps(by_seed[s][mid]["msgs"]) for s in seeds}
         if len(variants) != 1 or msgs[0] != msgs[1]:
-            res.violation("msg.differs_across_runs", what_case + ": the message differs between hash seeds / repetitions",
+            _v("msg.differs_across_runs", what_case + ": the message differs between hash seeds / repetitions",
                           {"signature": "msg.differs_across_runs", "case": c,
                            "messages": {str(s): by_seed[s][mid]["msgs"] for s in seeds}})
             continue
         msg = msgs[0]
         if msg is None or msg.startswith("EXC "):
-            res.violation("msg.differs_across_runs", what_case + ": no violation message: {!r}".format(msg),
+            _v("msg.differs_across_runs", what_case + ": no violation message: {!r}".format(msg),
                           {"signature": "msg.differs_across_runs", "case": c})
             continue
         # identical for every keyword order of the same call
@@ -145,7 +151,7 @@ def check_messages(res: CheckResult, tier: str, rng: random.Random) -> None:
                           c.get("role"), c.get("result")])
         body = "\n".join(msg.split("\n")[1:])
         if key in base_key and base_key[key][1] != body:
-            res.violation("msg.differs_across_runs",
+            _v("msg.differs_across_runs",
                           what_case + ": the message depends on the keyword order (case {})".format(base_key[key][0]),
                           {"signature": "msg.differs_across_runs", "case": c, "message": body, "other": base_key[key][1]})
             continue
@@ -163,7 +169,7 @@ def check_messages(res: CheckResult, tier: str, rng: random.Random) -> None:
             # the value is an attribute of the instance: `self.a` stands for the argument `a` of the case; the
             # instance itself must be rendered through the contract's a_repr as well
             if vals.get("self") != o0["rendered"]["self"]:
-                res.violation("msg.repr_not_contracts",
+                _v("msg.repr_not_contracts",
                               what_case + ": `self` is shown as {!r}, the contract's a_repr gives {!r}".format(
                                   str(vals.get("self"))[:80], o0["rendered"]["self"][:80]),
                               {"signature": "msg.repr_not_contracts", "case": c, "message": body})
@@ -173,14 +179,14 @@ def check_messages(res: CheckResult, tier: str, rng: random.Random) -> None:
             vals = {(k[5:] if k.startswith("self.") else k): v for k, v in vals.items() if k != "self"}
         sort_keys = raw_keys if c.get("role") == "inv" else keys
         if sort_keys != sorted(sort_keys):
-            res.violation("msg.unsorted", what_case + ": value lines are not sorted: {}".format(sort_keys),
+            _v("msg.unsorted", what_case + ": value lines are not sorted: {}".format(sort_keys),
                           {"signature": "msg.unsorted", "case": c, "message": body})
             continue
         exp = expected.get(mid)
         if exp is None:
             raise MachineryError("no specification output for message case {}".format(mid))
         if "result" in keys and not exp["result_ok"]:
-            res.violation("msg.nonrepresentable_shown", what_case + ": the result (a {}) is listed: {!r}".format(
+            _v("msg.nonrepresentable_shown", what_case + ": the result (a {}) is listed: {!r}".format(
                 c["result"]["kind"], str(vals.get("result"))[:80]), {"signature": "msg.nonrepresentable_shown", "case": c, "message": body})
             continue
         arg_names = {a["name"] for a in c["args"]} | {"_ARGS", "_KWARGS"}
@@ -191,7 +197,7 @@ def check_messages(res: CheckResult, tier: str, rng: random.Random) -> None:
             clause = "msg.nonrepresentable_shown" if set(got_names) - set(exp["lines"]) else "msg.value_missing_arg"
             if {"_ARGS", "_KWARGS"} & (set(got_names) ^ set(exp["lines"])):
                 clause = "msg.args_kwargs_shown"
-            res.violation(clause, what_case + ": argument lines {} but the specification says {}".format(got_names, exp["lines"]),
+            _v(clause, what_case + ": argument lines {} but the specification says {}".format(got_names, exp["lines"]),
                           {"signature": clause, "case": c, "message": body})
             continue
         for j, nm in enumerate(exp["lines"]):
@@ -200,7 +206,7 @@ def check_messages(res: CheckResult, tier: str, rng: random.Random) -> None:
                 continue
             want = o0["rendered"][nm]
             if vals[nm] != want:
-                res.violation("msg.repr_not_contracts",
+                _v("msg.repr_not_contracts",
                               what_case + ": `{}` is shown as {!r}, the contract's a_repr gives {!r}".format(nm, vals[nm][:80], want[:80]),
                               {"signature": "msg.repr_not_contracts", "case": c, "message": body})
                 break
@@ -209,7 +215,7 @@ def check_messages(res: CheckResult, tier: str, rng: random.Random) -> None:
         if c["flavour"] == "quant" and o0["first"] is not None:
             m = [l for l in lines if l.startswith("  e = ")]
             if not m or m[0] != "  e = " + o0["first"]:
-                res.violation("msg.repr_not_contracts",
+                _v("msg.repr_not_contracts",
                               what_case + ": the quantifier's example is shown as {!r}, the contract's a_repr gives {!r}".format(
                                   (m or ["<missing>"])[0][:90], ("  e = " + o0["first"])[:90]),
                               {"signature": "msg.repr_not_contracts", "case": c, "message": body})
